@@ -250,7 +250,8 @@ def check_heights(ck, drv, t, dates, kind, k, rows, batched, fails):
         fails.append((f"ReparameterizedTimeTreeModel.__call__:{kind}{tag}", f"raises {type(e).__name__}: {e}"))
     # Lean model of the reported value
     if drv is not None and kind == "ratio" and "rep" in out and tuple(out["rep"].shape) == tuple(x.shape[:-1]):
-        leaf = G.expected_leaf_heights(dates)
+        # the sampling times the model really carries (float32 values; their agreement with the dates is C06)
+        leaf = m.sampling_times.tolist()
         s_f = " ".join(f2h(v) for v in leaf)
         ys = out["y"].tolist() if batched else [out["y"].tolist()]
         reps = out["rep"].tolist() if batched else [out["rep"].item()]
